@@ -1,6 +1,7 @@
 SPECIFICATION Spec
 CONSTANTS MaxH = 8
  EmitCases = FALSE
+ Wide = FALSE
  YPad = "top"
 INVARIANT NeverThree
 CHECK_DEADLOCK FALSE
